@@ -5,6 +5,7 @@ import PyYetiVerif.Model.PyFloat
 import PyYetiVerif.Model.Op4AsciiBits
 import PyYetiVerif.Model.Op4Input
 import PyYetiVerif.Model.Op4Fixed
+import PyYetiVerif.Model.Op4FixedInput
 /-! Line protocol for C04 (all numbers decimal, byte strings hex).
 
   cs i0 i1 …                      → `s:l s:l …`                       (`_sparse_col_stats`)
@@ -38,7 +39,7 @@ import PyYetiVerif.Model.Op4Fixed
 
   wr <b|a> <l|b> <digits> <opt a|d|b|n> names mats forms
                                   → `op4.write` on its arguments (Model/Op4Input.lean `prepare`, then
-                                    `writeAllWords` / `writeOneAscii`): hex of the file | `ValueError` | `struct_error`
+                                    `writeAllWordsFx` (the writer with `_split_strings`) / `writeOneAscii`): hex of the file | `ValueError` | `struct_error`
      names = D <n> { <namehex|-> <M | N | P form> matIn }   (mapping: matrix, (matrix, None), (matrix, form))
            | L <n> <namehex|->… | O <namehex|->
      mats  = L <n> matIn… | O matIn          forms = N | O <form> | L <n> <form|->…
@@ -474,7 +475,7 @@ def answer (line : String) : String :=
         | none => pure "ValueError"
         | some items =>
           if kind == "b" then
-            match writeAllWords fadd e items with
+            match writeAllWordsFx fadd e items with
             | .ok w => pure (toHex (bytesOfWords e w))
             | .error .valueError => pure "ValueError"
             | .error .structError => pure "struct_error"
